@@ -201,6 +201,11 @@ func (d *director) serve(p *netsim.Peer, iv *wire.InvVect) {
 	}
 	pi := d.peerIdx[p.Addr]
 	st := d.next(pi, streamKey{iv.Hash, base})
+	if st.DelayMs > 0 {
+		d.mu.Unlock()
+		time.Sleep(time.Duration(st.DelayMs) * time.Millisecond)
+		d.mu.Lock()
+	}
 	rx := d.w.Log.Add(p.Addr, "ev", "c06-getdata", fmt.Sprintf("h=%d base=%v step=%s", n.Height, base, st))
 	a := &Answer{RxSeq: rx, Peer: pi, Hash: iv.Hash, HashStr: iv.Hash.String()[:12], Height: n.Height,
 		Base: base, Step: st.String(), ConnOpen: d.w.Net.TotalConns(p.Addr)}
